@@ -34,6 +34,97 @@ def load_baseline():
         return None
 
 
+_FEATURES = os.path.join(os.path.dirname(os.path.abspath(__file__)), 'baseline_features.json')
+
+
+def load_features():
+    try:
+        with open(_FEATURES, encoding='utf8') as f:
+            return json.load(f)
+    except OSError:
+        return None
+
+
+def function_features(fn):
+    """What a module-level function looks like regardless of its own name and of the names of its locals: arity, and the bag of names it
+    refers to that it does not bind itself (callees, globals, attributes, string constants)."""
+    bound = {a.arg for a in fn.args.args + fn.args.kwonlyargs} | {n.id for n in ast.walk(fn) if isinstance(n, ast.Name) and isinstance(n.ctx, (ast.Store, ast.Del))}
+    names = set()
+    for n in ast.walk(fn):
+        if isinstance(n, ast.Name) and n.id not in bound and n.id != fn.name:
+            names.add(n.id)
+        elif isinstance(n, ast.Attribute):
+            names.add('.' + n.attr)
+        elif isinstance(n, ast.Constant) and isinstance(n.value, str) and 0 < len(n.value) < 40 and n is not (fn.body[0].value if fn.body and isinstance(fn.body[0], ast.Expr) else None):
+            names.add('"' + n.value)
+    return {'arity': len(fn.args.args), 'names': sorted(names), 'size': sum(1 for _ in ast.walk(fn))}
+
+
+def rename_back(modules, baseline, features, log=None):
+    """A module-level function of the reference tree that is gone, and a new one in the same module that looks like it (same arity, mostly
+    the same outside names, similar size), are one function under a new name: give it its old name back, in the module and in every
+    `from <module> import` of it.  Pairs are taken only when they are unambiguous; anything else is left to the inliner / the anchors."""
+    if baseline is None or not features:
+        return []
+    done = []
+    for m in modules.values():
+        defs = {st.name: st for st in m.tree.body if isinstance(st, ast.FunctionDef)}
+        gone = [fid.split(':', 1)[1] for fid in features if fid.startswith(m.name + ':') and fid.split(':', 1)[1] not in defs]
+        new = [nm for nm in defs if '%s:%s' % (m.name, nm) not in baseline]
+        if not gone or not new:
+            continue
+        # a name that is still bound in the module (imported back from a sibling) is a MOVE, not a rename
+        bound_here = set()
+        for st in m.tree.body:
+            if isinstance(st, ast.ImportFrom):
+                bound_here |= {a.asname or a.name for a in st.names}
+            elif isinstance(st, ast.Assign):
+                bound_here |= {t.id for t in st.targets if isinstance(t, ast.Name)}
+        gone = [g for g in gone if g not in bound_here]
+        score = {}
+        for g in gone:
+            fg = features['%s:%s' % (m.name, g)]
+            for nm in new:
+                fn_ = function_features(defs[nm])
+                if fn_['arity'] != fg['arity']:
+                    continue
+                a, b = set(fg['names']), set(fn_['names'])
+                jac = len(a & b) / float(len(a | b) or 1)
+                size = min(fg['size'], fn_['size']) / float(max(fg['size'], fn_['size']) or 1)
+                if jac >= 0.6 and size >= 0.5:
+                    score[(g, nm)] = jac
+        for (g, nm), sc in sorted(score.items(), key=lambda kv: -kv[1]):
+            if sum(1 for (g2, n2) in score if g2 == g) != 1 or sum(1 for (g2, n2) in score if n2 == nm) != 1:
+                continue        # ambiguous
+            # rename nm -> g everywhere it is visible
+            defs[nm].name = g
+            for x in ast.walk(m.tree):
+                if isinstance(x, ast.Name) and x.id == nm:
+                    x.id = g
+            for m2 in modules.values():
+                if m2 is m:
+                    continue
+                for st in ast.walk(m2.tree):
+                    if isinstance(st, ast.ImportFrom) and any(a.name == nm for a in st.names):
+                        mod = st.module or ''
+                        if m.name.endswith(mod.lstrip('.')) or mod.split('.')[-1] == m.name.split('.')[-1]:
+                            for a in st.names:
+                                if a.name == nm:
+                                    local = a.asname or a.name
+                                    a.name = g
+                                    if a.asname is None and local == nm:
+                                        for x in ast.walk(m2.tree):
+                                            if isinstance(x, ast.Name) and x.id == nm:
+                                                x.id = g
+                for x in ast.walk(m2.tree):
+                    if isinstance(x, ast.Attribute) and x.attr == nm and isinstance(x.value, ast.Name) and x.value.id == m.name.split('.')[-1]:
+                        x.attr = g
+            done.append('%s:%s -> %s' % (m.name, nm, g))
+    if log is not None and done:
+        log(done)
+    return done
+
+
 def _blocks(node):
     """Yield every statement list inside node (body/orelse/finalbody/handler bodies), recursively, without entering nested defs' headers."""
     for n in ast.walk(node):
